@@ -8,6 +8,8 @@ Tie to /repo (every run):
                  circular shifts anywhere in the periodic cell, odd/even/non-square shapes, every
                  upsampling factor in {1,2,3,4,8,16,64}, real/Fourier inputs and outputs, max_shift,
                  return_shifted_image; identical images; swapped images.
+  histories      3-6 registrations re-using the same arrays / spectra / tensors (round 4); images with a large mean
+  tie            harness/c13_tie.py: index arithmetic translated from the current source, proved equal to the model
   correspondence the Coq model is run (vm_compute) on the correlation array and on the upsampled
                  window captured from the implementation (monkey-patched dft_upsample /
                  dftUpsample_torch / upsampled_correlation_torch) and must return the
@@ -78,6 +80,31 @@ def make_image(kind: str, seed: int, M: int, N: int) -> np.ndarray:
     return bl_image(seed, M, N) if kind == "bl" else int_image(seed, M, N)
 
 
+MEAN_RATIOS = [1.0, 1e1, 1e2, 1e3, 1e4, 1e5]      # image mean / image contrast (standard deviation)
+
+
+def build_pair(case):
+    """(ref, im): the image of the case and its circular translate.  `mean_ratio` r adds the constant
+    r * std(image) (round 4: images with a large mean; the property is quantified over image contents with a
+    unique correlation peak, and a constant does not change the correlation peak); with it the arrays are
+    cast to the case's dtype BEFORE the integer roll, so the second image is the exact translate of the first"""
+    M, N = case["M"], case["N"]
+    ref = make_image(case.get("img", "bl"), case["seed"], M, N)
+    ratio = case.get("mean_ratio", 0)
+    if ratio:
+        off = ratio * float(ref.std())
+        ref = ref + (float(round(off)) if case.get("img") == "int" else off)
+        dt = case.get("np_dtype" if case["est"] == "numpy" else "dtype", "float64")
+        if dt == "float32":
+            ref = ref.astype(np.float32)
+    return ref, apply_shift(ref, case["shift"])
+
+
+def dtype_eps(case) -> float:
+    dt = case.get("np_dtype" if case["est"] == "numpy" else "dtype", "float64")
+    return 1.2e-7 if dt == "float32" else 2.3e-16
+
+
 def is_int_shift(s) -> bool:
     return all(float(v).is_integer() for v in s)
 
@@ -141,6 +168,12 @@ def run_est(case, ref, im):
 
 # --------------------------------------------------------------------------- the property oracle
 def tol_for(case) -> float:
+    return _tol_base(case) + 4.0 * dtype_eps(case) * case.get("mean_ratio", 0)
+    # a mean of r x contrast stored in a dtype of relative precision eps carries the image with relative
+    # precision eps * r: "exact" is judged to that (measured on the repaired code: <= 0.3 eps r pixel)
+
+
+def _tol_base(case) -> float:
     s = case["shift"]
     if is_int_shift(s):
         if case["est"] == "numpy":
@@ -329,12 +362,25 @@ def gen_cases(ctx: Ctx):
             cases.append(one("numpy", "zero", up, shape))
             if up in (1, 3, 4, 16):
                 cases.append(one("torch", "zero", up, shape))
+    # round 4: images with a large mean (0 .. 1e5 x their contrast), float32 and float64, both estimators: the
+    # zero-frequency term of the cross spectrum (N^2 mean^2) must not swamp the correlation peak
+    for est in ("numpy", "torch"):
+        for dt in ("float32", "float64"):
+            for ratio in MEAN_RATIOS:
+                for kind in ("zero", "int"):
+                    c = one(est, kind, r.choice(UPS), mean_ratio=ratio)
+                    c["np_dtype" if est == "numpy" else "dtype"] = dt
+                    cases.append(c)
     n = ctx.budget(220, 9000)
     for _ in range(n):
         est = r.choice(["numpy", "numpy", "torch"])
         kind = r.choice(["int", "int", "sub", "sub", "sub", "half-size", "zero", "wrap"])
         up = r.choice(UPS)
         c = one(est, kind, up)
+        if r.random() < 0.2:
+            c["mean_ratio"] = r.choice(MEAN_RATIOS)
+            if kind in ("int", "zero", "half-size") and r.random() < 0.5:
+                c["np_dtype" if est == "numpy" else "dtype"] = "float32"
         if est == "numpy":
             c["fft_in"] = r.random() < 0.4
             c["rsi"] = r.random() < 0.6
@@ -343,15 +389,16 @@ def gen_cases(ctx: Ctx):
                 c["ms"] = pick_max_shift(r, c)
         else:
             c["mode"] = r.choice(["real", "real", "fourier"])
-            c["dtype"] = "float32" if r.random() < 0.15 else "float64"
+            if "dtype" not in c:
+                c["dtype"] = "float32" if (r.random() < 0.15 and not (c.get("mean_ratio") and kind in ("sub", "wrap"))) else "float64"
+        if est == "numpy" and c.get("np_dtype") == "float32":
+            c["rsi"] = c["fft_out"] = False       # the aligned-image clause is judged at float64 precision
         cases.append(c)
     return cases
 
 
 def run_case(case):
-    M, N = case["M"], case["N"]
-    ref = make_image(case.get("img", "bl"), case["seed"], M, N)
-    im = apply_shift(ref, case["shift"])
+    ref, im = build_pair(case)
     res, img = run_est(case, ref, im)
     sw = dict(case)
     sw["rsi"] = False
@@ -406,6 +453,12 @@ def check_oracle(ctx: Ctx):
                                                     ("+max_shift-" + case.get("ms_kind", "room")) if case.get("ms") else ""))
         else:
             ctx.dist("oracle/torch-io/%s/%s" % (case.get("mode", "real"), case.get("dtype", "float64")))
+        if case.get("mean_ratio"):
+            ctx.dist("oracle/mean=%gx-contrast/%s" % (case["mean_ratio"], case.get("np_dtype" if case["est"] == "numpy" else "dtype", "float64")))
+            bad = [(k + "-large-mean", "[image mean = %g x its contrast, %s] %s" % (
+                case["mean_ratio"], case.get("np_dtype" if case["est"] == "numpy" else "dtype", "float64"), m_)) for k, m_ in bad]
+        else:
+            ctx.dist("oracle/mean=small")
         beyond = abs(case["shift"][0]) > case["M"] / 2 or abs(case["shift"][1]) > case["N"] / 2
         if beyond:
             ctx.dist("oracle/shift-beyond-half-size")
@@ -591,6 +644,8 @@ def gen_corr_cases(ctx: Ctx):
         kind = r.choice(["int", "int", "sub", "sub", "zero"])
         add(est, "int" if (kind != "sub" and r.random() < 0.7) else "bl", kind, r.choice(ups_val),
             ms=(est == "numpy" and r.random() < 0.3))
+        if r.random() < 0.3:
+            cases[-1]["mean_ratio"] = r.choice([1.0, 1e1, 1e2, 1e3])     # float64: the model is exact
     return cases
 
 
@@ -599,25 +654,28 @@ def check_correspondence(ctx: Ctx, cases=None):
     exprs, meta = [], []
     for case in cases:
         M, N, up = case["M"], case["N"], case["up"]
-        ref = make_image(case["img"], case["seed"], M, N)
-        im = apply_shift(ref, case["shift"])
+        ref, im = build_pair(case)
         with Capture() as cap:
             res, _ = run_est(case, ref, im)
-        # the correlation array, exactly as the implementation forms it (same numpy calls); for
-        # integer images it must agree with the defining sum (the cross-correlation theorem)
-        cc_impl = np.real(np.fft.ifft2(np.fft.fft2(ref) * np.conj(np.fft.fft2(im))))
+        # the correlation array, exactly as the implementation forms it (same numpy calls: the zero-frequency
+        # bin of the cross spectrum is set to 0 before the inverse transform); for integer images the
+        # model is given the defining sum (the cross-correlation theorem) and removes the mean itself
+        # (zero_dc; C13_zero_frequency_bin_is_a_constant), and the two must agree
+        spec = np.fft.fft2(ref) * np.conj(np.fft.fft2(im))
+        spec[0, 0] = 0
+        cc_impl = np.real(np.fft.ifft2(spec))
         if case["img"] == "int" and is_int_shift(case["shift"]):
             cci = exact_xcorr(ref, im)
-            if np.abs(cci - cc_impl).max() > 1e-7 * max(1.0, np.abs(cci).max()):
+            if np.abs((cci - cci.mean()) - cc_impl).max() > 1e-7 * max(1.0, np.abs(cci).max()):
                 ctx.violation("xcorr-theorem-on-implementation",
-                              "ifft2(F_ref conj F_im) differs from sum_x ref[x+k] im[x]", {"kind": "corr", "case": public(case)})
+                              "ifft2(F_ref conj F_im with the zero-frequency bin removed) differs from sum_x ref[x+k] im[x] "
+                              "minus its mean", {"kind": "corr", "case": public(case)})
             srt = np.sort(cci.ravel())
             if srt[-1] == srt[-2]:
                 continue  # no unique correlation peak: outside the property's quantifier
-            cc_ints = [int(v) for v in cci.ravel()]
+            ccf = "(zero_dc %s %s (arr %s 1%%positive %s))" % (cnat(M), cnat(N), cnat(N), cz_list([int(v) for v in cci.ravel()]))
         else:
-            cc_ints = quantise(cc_impl)
-        ccf = "(arr %s 1%%positive %s)" % (cnat(N), cz_list(cc_ints))
+            ccf = "(arr %s 1%%positive %s)" % (cnat(N), cz_list(quantise(cc_impl)))
         m = {"case": case, "res": res, "what": []}
         if case["est"] == "numpy":
             ms = case.get("ms")
@@ -703,13 +761,12 @@ def check_correspondence(ctx: Ctx, cases=None):
                     if abs(abs(mres[ax]) - n / 2.0) > 1e-3 and abs(mres[ax] - res[ax]) > tol:
                         problems.append("centred representative, axis %d: impl %r model %r" % (ax, res[ax], mres[ax]))
         ctx.cov["traces_validated_against_impl"] += 1
-        ctx.dist("corr/%s/%s/%s" % (up_class(case), case["kind"], case["img"]))
+        ctx.dist("corr/%s/%s/%s%s" % (up_class(case), case["kind"], case["img"], "/large-mean" if case.get("mean_ratio") else ""))
         ctx.count(("corr", json.dumps(public(case), sort_keys=True)), nontrivial=case["kind"] != "zero" or up > 1)
         if problems:
             nd += 1
             ctx.cov["disagreements_checked"] += 1
-            ref = make_image(case["img"], case["seed"], M, N)
-            im = apply_shift(ref, case["shift"])
+            ref, im = build_pair(case)
             obad = oracle(dict(case), ref, im, res, None, None)
             ctx.violation("%s-shift-correspondence" % up_class(case),
                           "model and implementation disagree (%s) on %s" % ("; ".join(problems), public(case)),
@@ -1283,6 +1340,126 @@ def check_entry_points(ctx: Ctx):
     ctx.log("torch entry points: %d cases, %d failed clauses" % (n, nbad))
 
 
+# --------------------------------------------------------------------------- round 4: call histories on the same arrays
+def gen_history(r):
+    """one pair of images and a sequence of 3-6 registrations that all RE-USE the same input objects (the two
+    real arrays / their two spectra; the two tensors / their two spectra), in every fft_input /
+    return_shifted_image / fft_output combination, either image in the role of the second argument"""
+    M, N = r.choice(SHAPES)
+    est = r.choice(["numpy", "numpy", "torch"])
+    kind = r.choice(["int", "int", "sub"])
+    if kind == "int":
+        s = [float(r.randint(-M, 2 * M)), float(r.randint(-N, 2 * N))]
+        if circ(s[0], M) == 0 and circ(s[1], N) == 0:
+            s[0] += 1.0          # a history on identical images cannot tell a corrupted input from a clean one
+    else:
+        den = r.choice([4, 8, 16])
+        s = [r.randint(-M * den, M * den) / den, r.randint(-N * den, N * den) / den]
+        if abs(circ(s[0], M)) < 1 and abs(circ(s[1], N)) < 1:
+            s[0] += 2.0
+    calls = []
+    for _ in range(r.randint(3, 6)):
+        c = {"up": r.choice(UPS), "swap": r.random() < 0.3}
+        if est == "numpy":
+            c["fft_in"] = r.random() < 0.65
+            c["rsi"] = r.random() < 0.65
+            c["fft_out"] = c["rsi"] and r.random() < 0.5
+        else:
+            c["mode"] = r.choice(["real", "fourier", "fourier"])
+        calls.append(c)
+    if est == "numpy":       # every history has the combination that hands the caller's spectra over and asks for the image
+        calls[0].update({"fft_in": True, "rsi": True, "fft_out": r.random() < 0.5})
+    return {"est": est, "img": "bl", "seed": r.randrange(1 << 30), "M": M, "N": N, "shift": s, "kind": kind,
+            "calls": calls}
+
+
+def history_case(hist):
+    """runs the history on ONE set of input objects; every call is judged by the property oracle on its own
+    (returned shift = the applied translation, aligned image matches).  Returns [(key, msg, call index)]"""
+    from quantem.core.utils import imaging_utils as iu
+    M, N = hist["M"], hist["N"]
+    base = {"est": hist["est"], "img": hist["img"], "seed": hist["seed"], "M": M, "N": N, "shift": hist["shift"],
+            "kind": hist["kind"], "up": 1}
+    ref, im = build_pair(base)
+    pristine = (ref.copy(), im.copy())
+    if hist["est"] == "numpy":
+        objs = {"real": (ref, im), "fourier": (np.fft.fft2(ref), np.fft.fft2(im))}
+    else:
+        import torch
+        ta, tb = torch.tensor(ref), torch.tensor(im)
+        objs = {"real": (ta, tb), "fourier": (torch.fft.fft2(ta), torch.fft.fft2(tb))}
+    bad = []
+    for i, c in enumerate(hist["calls"]):
+        case = dict(base)
+        case.update({k: v for k, v in c.items() if k != "swap"})
+        first, second = pristine if not c["swap"] else (pristine[1], pristine[0])
+        if c["swap"]:
+            case["shift"] = [-hist["shift"][0], -hist["shift"][1]]
+        img = None
+        try:
+            if hist["est"] == "numpy":
+                a, b = objs["fourier" if c["fft_in"] else "real"]
+                if c["swap"]:
+                    a, b = b, a
+                with np.errstate(all="ignore"):
+                    out = iu.cross_correlation_shift(a, b, upsample_factor=c["up"], return_shifted_image=c["rsi"],
+                                                     fft_input=c["fft_in"], fft_output=c["fft_out"])
+                if c["rsi"]:
+                    out, img = out
+                    img = np.array(img)
+                res = [float(out[0]), float(out[1])]
+            else:
+                a, b = objs[c["mode"]]
+                if c["swap"]:
+                    a, b = b, a
+                if c["mode"] == "real":
+                    out = iu.cross_correlation_shift_torch(a, b, upsample_factor=c["up"])
+                    res = [float(out[0]), float(out[1])]
+                else:
+                    out = iu.align_images_fourier_torch(a, b, c["up"])
+                    res = [circ(float(out[0]), M), circ(float(out[1]), N)]
+        except Exception as e:  # noqa: BLE001
+            case["_raised"] = "%s: %s" % (type(e).__name__, str(e)[:200])
+            res = [float("nan"), float("nan")]
+        for k, m_ in oracle(case, first, second, res, img, None):
+            bad.append(("history-" + k, "call %d of %d on the same input %s (%s): %s" % (
+                i + 1, len(hist["calls"]), "arrays" if hist["est"] == "numpy" else "tensors",
+                ", ".join("%s=%r" % kv for kv in sorted(c.items())), m_), i))
+        if bad:
+            break           # later calls of a broken history add nothing
+    return bad
+
+
+def check_histories(ctx: Ctx):
+    """'returns the applied translation' holds for EVERY call: also for the 2nd .. n-th registration that is handed
+    the very same arrays / spectra / tensors as an earlier one (a caller that registers one spectrum against several
+    references, at several factors, with and without the aligned image)"""
+    r = ctx.rng
+    n = ctx.budget(36, 900)
+    nbad = ncalls = 0
+    mid = None
+    for j in range(n):
+        hist = gen_history(r)
+        bad = history_case(hist)
+        ncalls += len(hist["calls"])
+        ctx.dist("history/%s/len=%d" % (hist["est"], len(hist["calls"])))
+        for c in hist["calls"]:
+            if hist["est"] == "numpy":
+                ctx.dist("history-call/numpy/%s%s%s%s" % ("F" if c["fft_in"] else "r", "+img" if c["rsi"] else "",
+                                                            "(F)" if c["fft_out"] else "", "/swapped" if c["swap"] else ""))
+            else:
+                ctx.dist("history-call/torch/%s%s" % (c["mode"], "/swapped" if c["swap"] else ""))
+        ctx.count(("history", json.dumps(hist, sort_keys=True)), nontrivial=True)
+        if j == n // 2:
+            mid = hist
+        for key, msg, i in bad:
+            nbad += 1
+            ctx.violation(key, msg, {"kind": "history", "case": hist, "failing_call": i})
+    if mid:
+        ctx.sample({"kind": "history", "case": mid})
+    ctx.log("call histories on the same arrays: %d histories, %d calls, %d failed clauses" % (n, ncalls, nbad))
+
+
 # --------------------------------------------------------------------------- entry points
 def run(ctx: Ctx):
     ctx.hash_sources("core/utils/imaging_utils.py",
@@ -1308,7 +1485,13 @@ def run(ctx: Ctx):
         "align_vbf_stack_multiscale in reference and pairwise mode, DriftCorrection.align_translation for scan directions "
         "0/90/180/270) on stacks of translated copies: what each caller does with the returned shift must reproduce the "
         "reference; the upsampled window of identical images must be bounded by and point symmetric about its centre sample "
-        "(the statement of C13_identical_window_le_centre_*).")
+        "(the statement of C13_identical_window_le_centre_*). Round 4: images with a mean of 1 .. 1e5 x their contrast (standard "
+        "deviation) in float32 and float64, identical and integer-rolled copies, both estimators (80 fixed cases + 20 % of the random "
+        "stream; sub-pixel shifts of such images in float64 only); call histories: one pair of images, 3-6 registrations that all "
+        "re-use the same two real arrays / two spectra / two tensors, every fft_input / return_shifted_image / fft_output combination "
+        "(the first call always hands the caller's spectra over and asks for the aligned image), either image as the second "
+        "argument, every call judged by the oracle on its own; the index arithmetic of the six functions is translated from the "
+        "current source and proved equal to the model (translator_tie).")
     ctx.assumptions += [
         "numpy.fft / torch.fft compute the DFT (fft2/ifft2) to float precision; np.roll is an exact circular shift",
         "the upsampled window values are an oracle input of the model (captured from the implementation); what is "
@@ -1332,6 +1515,11 @@ def run(ctx: Ctx):
         "synchronisation only with un-wrapped relative shifts (all differences below half the size); scipy.ndimage.shift "
         "with an integer shift reproduces the samples (interpolating spline), gaussian_filter / bilinear splat are "
         "translation equivariant for integer knot offsets",
+        "an image whose mean is r times its contrast, stored in a dtype of relative precision eps, carries its content with "
+        "relative precision eps r: 'exact' for such images allows 4 eps r pixel in addition (measured on the repaired code: at most "
+        "0.3 eps r); the aligned-image clause is judged for float64 inputs only",
+        "a call history is inside the quantifier: the property speaks about every call, also the 2nd..n-th one that is handed the "
+        "same arrays; histories use a non-zero applied shift of at least one pixel so that a corrupted input cannot pass as correct",
         "hypotheses of the round-3 theorems that are premises on the image content, not checked on inputs: no_self_overlap "
         "(no integer translate reproduces the image) and np_/t_offsets_distinct (no translate by the sub-pixel offset of a "
         "non-centre window sample reproduces it); re additive / positive / definite and E unit-modulus are satisfiable "
@@ -1352,7 +1540,15 @@ def run(ctx: Ctx):
                      ["_synchronize_shifts", "_compute_pairwise_shifts", "_compute_reference_shifts",
                       "_fourier_shift_stack", "align_vbf_stack_multiscale"])
     ctx.proofs_or_violation()
+    # round 4: the index arithmetic the model transcribes by hand, translated from the CURRENT source and proved
+    # equal to the model's definitions (harness/c13_tie.py + coq/gen_proofs/C13_GenProofs.v / C13_GenProperties.v)
+    try:
+        from ..c13_tie import run_tie
+        run_tie(ctx)
+    except Exception as e:  # noqa: BLE001
+        ctx.broken_obligation = "; ".join(filter(None, [ctx.broken_obligation, "index-arithmetic tie could not run: %r" % (e,)]))
     check_oracle(ctx)
+    check_histories(ctx)
     check_variants(ctx)
     check_entry_points(ctx)
     check_callers(ctx)
@@ -1371,6 +1567,14 @@ def replay(ctx: Ctx, path):
     if not case:
         print("nothing to replay in", path, "- re-run ./check C13")
         return 0
+    if rp.get("kind") == "history":
+        print("history:", case)
+        bad = history_case(dict(case))
+        for k, msg, i in bad:
+            print("FAILS [%s]: %s" % (k, msg))
+        if not bad:
+            print("property holds for every call of this history")
+        return 1 if bad else 0
     if rp.get("kind") in ("caller", "variant"):
         print("case:", case)
         bad = CALLERS[case["caller"]](dict(case)) if rp["kind"] == "caller" else variant_case(dict(case))
